@@ -30,11 +30,12 @@ func traceMode(in *mbt.Input, res *mbt.Result) {
 		var events []map[string]any
 		rec := func(ev map[string]any) { emu.Lock(); events = append(events, ev); emu.Unlock() }
 		tickMs.Store(int64(tick))
-		// back-pressure up to the read loop: in a third of the runs the runner's output stream holds just one key-event
-		// batch (a stream smaller than the batch size can never fill a batch when there is no batch time-out: the read
-		// loop queues the placeholder before it adds the event - with the code's 1000 slots that needs MaxSize > 1000)
+		// back-pressure up to the read loop: in a third of the runs that have a batch time-out the runner's output stream
+		// holds just one key-event batch. Without a time-out a small stream can stall for good: the read loop queues the
+		// placeholder before it adds the event, barriers and watermark placeholders take slots too, and a partial
+		// key-event batch then never fills (the code's 1000 slots make that a matter of MaxSize and time).
 		stream := 0
-		if in.CfgBool("SmallStreams", true) && rng.Intn(3) == 0 {
+		if small := rng.Intn(3) == 0; small && in.CfgBool("SmallStreams", true) && delayMs > 0 {
 			stream = maxSize + rng.Intn(2)
 			res.Count("runs_with_a_small_output_stream", 1)
 		}
